@@ -1,7 +1,7 @@
 """C07 — minimum-value promises mean value >= promise, and bind the proof."""
 import copy
 from lib.common import *
-from lib import gen, sessions
+from lib import gen, sessions, forge
 
 TRUSTED = [
     "Coq 8.16.1 kernel and vm_compute; Bignums.BigZ only in the executable instance",
@@ -159,6 +159,12 @@ def run(run: Run):
     run.run_audit()
     specs = gen_specs(run)
     sessions.run_sessions(run, specs, oracle, relevant=1 | 4 | 8 | 16 | 64, jobs=12)
+    # "acceptance establishes promise_j <= value_j with value_j - promise_j < 2^bits" needs an adversary that can prove the in-range OFFSET of a value
+    # hidden behind a promise beyond the bit length (the crate's own prover refuses such a witness): tools/lib/forge.py
+    jobs = forge.standard_jobs(run.rng, run.tier == "quick", which=("promise", "digit"))
+    fspecs = forge.forge_all(run.rng, jobs, prefix="c07f")
+    forge.report_incomplete(run, jobs)
+    sessions.run_sessions(run, fspecs, lambda r, s, o: forge.oracle(r, s, o, " (C07: promise <= value < 2^bits)"), relevant=1 | 4 | 8 | 16 | 64, name="c07f")
     return run.finish(
         "proof",
         "per configuration and position j: promise values {0, v, v-1, v+1, 2^n-1, 2^n, u64::MAX, None} at proving time, and every single substitution "
